@@ -1,5 +1,177 @@
 import OasisModel.Proto
-/- C02/C03/C13 trie, overlay, write log: driver stub (not built yet). -/
+import OasisModel.Mkvs.Overlay
+/-
+Driver for the MKVS model (mode `mkvs`, executable `om_mkvs`), used by harness/cmd/mkvsdrv for
+C02, C03 and C13.  Every line carries the operation *and* what the real tree answered; the model
+answers `ok` or `DIVERGE <detail>` (after a divergence: `skip`).
+
+Handles: level 0 is the tree, level i the i-th overlay (NewOverlay on level i-1).
+Encoding: bytes in hex, `-` = empty byte string, `nil` = absent; item lists `k:v,k:v` or `.`;
+write-log entries `k:v` / `k:~` (delete).
+
+  new                          fresh empty tree (drops overlays, keeps the table of committed roots)
+  insert L K V | remove L K
+  remx L K ANS                 RemoveExisting, ANS = previous value
+  get L K ANS
+  iter L K N ITEMS             Seek K then up to N items
+  onew | ocommit | odiscard    push overlay | Commit outermost overlay (stays, empty) | Close it
+  commit HASH LOG              Tree.Commit: root hash and returned write log (sorted by key)
+  reopen HASH                  NewWithRoot at a committed root (no overlays open)
+  applywl LOG                  ApplyWriteLog on the tree, entries in the given order
+  getwl H1 H2 LOG              NodeDB.GetWriteLog(H1 -> H2) (sorted by key)
+  wf                           model self-check: current trie is in canonical form
+-/
 namespace OasisModel.Mkvs.Driver
-def main : IO Unit := IO.eprintln "mode not implemented"
+open OasisModel.Proto OasisModel.Mkvs
+
+structure St where
+  tree : TreeState := {}
+  layers : List Layer := []          -- outermost first
+  lastRoot : Bytes := rootHash .nil  -- hash of the root the tree was opened at / last committed
+  roots : List (Bytes × Trie) := [(rootHash .nil, .nil)]
+  logs : List (Bytes × Bytes × List LogEntry) := []
+  dead : Bool := false
+
+def showOpt : Option Bytes → String
+  | none => "nil"
+  | some b => showHex b
+
+def parseOpt (s : String) : Option (Option Bytes) :=
+  if s == "nil" then some none else (parseHex s).map some
+
+def showItems (l : List KV) : String :=
+  if l.isEmpty then "." else ",".intercalate (l.map fun kv => showHex kv.1 ++ ":" ++ showHex kv.2)
+
+def parseItems (s : String) : Option (List KV) :=
+  if s == "." then some [] else
+  (s.splitOn ",").mapM fun e =>
+    match e.splitOn ":" with
+    | [a, b] => do
+      let k ← parseHex a
+      let v ← parseHex b
+      pure (k, v)
+    | _ => none
+
+def showLog (l : List LogEntry) : String :=
+  if l.isEmpty then "." else ",".intercalate (l.map fun e => showHex e.1 ++ ":" ++
+    (match e.2 with | none => "~" | some v => showHex v))
+
+def parseLog (s : String) : Option (List LogEntry) :=
+  if s == "." then some [] else
+  (s.splitOn ",").mapM fun e =>
+    match e.splitOn ":" with
+    | [a, b] => do
+      let k ← parseHex a
+      if b == "~" then pure (k, none) else do
+        let v ← parseHex b
+        pure (k, some v)
+    | _ => none
+
+def sortLog (l : List LogEntry) : List LogEntry := l.mergeSort (fun a b => !decide (b.1 < a.1))
+
+/-- Run `f` on the handle at level `lvl` (the `lvl` innermost layers), re-attaching the outer layers. -/
+def atLevel {α} (st : St) (lvl : Nat) (f : TreeState → List Layer → (TreeState × List Layer) × α) :
+    Option (St × α) :=
+  let n := st.layers.length
+  if lvl > n then none else
+  let upper := st.layers.take (n - lvl)
+  let lower := st.layers.drop (n - lvl)
+  let r := f st.tree lower
+  some ({ st with tree := r.1.1, layers := upper ++ r.1.2 }, r.2)
+
+def step (st : St) (line : String) : St × String :=
+  if st.dead then (st, "skip") else
+  let fail (msg : String) : St × String := ({ st with dead := true }, "DIVERGE " ++ msg)
+  let ws := words line
+  if ws.any (fun w => w.startsWith "ERR" || w.startsWith "PANIC") then fail ("implementation error or panic: " ++ line.trimAscii.toString) else
+  match ws with
+  | [] => (st, "ok")
+  | ["new"] => ({ st with tree := {}, layers := [], lastRoot := rootHash .nil }, "ok")
+  | ["insert", l, k, v] =>
+    match l.toNat?, parseHex k, parseHex v with
+    | some l, some k, some v =>
+      match atLevel st l (fun b ls => (Stack.insert b ls k v, ())) with
+      | some (st', _) => (st', "ok")
+      | none => fail "bad-level"
+    | _, _, _ => fail "bad-op"
+  | ["remove", l, k] =>
+    match l.toNat?, parseHex k with
+    | some l, some k =>
+      match atLevel st l (fun b ls => (Stack.remove b ls k, ())) with
+      | some (st', _) => (st', "ok")
+      | none => fail "bad-level"
+    | _, _ => fail "bad-op"
+  | ["remx", l, k, ans] =>
+    match l.toNat?, parseHex k, parseOpt ans with
+    | some l, some k, some ans =>
+      match atLevel st l (fun b ls => Stack.removeExisting b ls k) with
+      | some (st', prev) =>
+        if prev == ans then (st', "ok") else fail s!"remove-existing model={showOpt prev} impl={showOpt ans}"
+      | none => fail "bad-level"
+    | _, _, _ => fail "bad-op"
+  | ["get", l, k, ans] =>
+    match l.toNat?, parseHex k, parseOpt ans with
+    | some l, some k, some ans =>
+      match atLevel st l (fun b ls => ((b, ls), Stack.get b ls k)) with
+      | some (_, v) =>
+        if v == ans then (st, "ok") else fail s!"get model={showOpt v} impl={showOpt ans}"
+      | none => fail "bad-level"
+    | _, _, _ => fail "bad-op"
+  | ["iter", l, k, n, items] =>
+    match l.toNat?, parseHex k, n.toNat?, parseItems items with
+    | some l, some k, some n, some items =>
+      match atLevel st l (fun b ls => ((b, ls), Stack.iter b ls k)) with
+      | some (_, m) =>
+        let m := m.take n
+        if m == items then (st, "ok") else fail s!"iterate model={showItems m} impl={showItems items}"
+      | none => fail "bad-level"
+    | _, _, _, _ => fail "bad-op"
+  | ["onew"] => ({ st with layers := {} :: st.layers }, "ok")
+  | ["ocommit"] =>
+    match st.layers with
+    | [] => fail "bad-op: no overlay"
+    | _ :: _ =>
+      let r := Stack.commitTop st.tree st.layers
+      ({ st with tree := r.1, layers := {} :: r.2 }, "ok")
+  | ["odiscard"] =>
+    match st.layers with
+    | [] => fail "bad-op: no overlay"
+    | _ :: rest => ({ st with layers := rest }, "ok")
+  | ["commit", h, log] =>
+    match parseHex h, parseLog log with
+    | some h, some log =>
+      let r := st.tree.commit
+      let mh := r.2.1
+      let ml := sortLog r.2.2
+      if mh != h then fail s!"root-hash model={showHex mh} impl={showHex h}"
+      else if ml != sortLog log then fail s!"write-log model={showLog ml} impl={showLog (sortLog log)}"
+      else ({ st with tree := r.1, lastRoot := mh, roots := (mh, r.1.root) :: st.roots,
+                      logs := (st.lastRoot, mh, ml) :: st.logs }, "ok")
+    | _, _ => fail "bad-op"
+  | ["reopen", h] =>
+    match parseHex h with
+    | some h =>
+      match st.roots.lookup h with
+      | some t => ({ st with tree := { root := t }, layers := [], lastRoot := h }, "ok")
+      | none => fail s!"reopen: root {showHex h} was never committed in the model"
+    | none => fail "bad-op"
+  | ["applywl", log] =>
+    match parseLog log with
+    | some log => ({ st with tree := st.tree.applyWriteLog log }, "ok")
+    | none => fail "bad-op"
+  | ["getwl", h1, h2, log] =>
+    match parseHex h1, parseHex h2, parseLog log with
+    | some h1, some h2, some log =>
+      match st.logs.find? (fun e => e.1 == h1 && e.2.1 == h2) with
+      | some e =>
+        if e.2.2 == sortLog log then (st, "ok")
+        else fail s!"db-write-log model={showLog e.2.2} impl={showLog (sortLog log)}"
+      | none => fail "getwl: no such transition in the model"
+    | _, _, _ => fail "bad-op"
+  | ["wf"] =>
+    if wfAtB [] st.tree.root then (st, "ok") else fail "model trie not in canonical form"
+  | _ => fail "bad-op"
+
+def main : IO Unit := loop step {}
+
 end OasisModel.Mkvs.Driver
